@@ -410,9 +410,13 @@ Expected(sol, par, vec, fn, sig, args, cb, variant) ==
              ELSE IF eq \in 1..3 THEN NSMom(F, mu, lam, eq)
              ELSE IF eq = 4 THEN NSEnergy(F, g, mu, lam, kap, T)
              ELSE Undefined
-    [] sol = "rans_sa" -> RansSA(par, fn, JVar(1, NFromStr(a[1])))
+    \* points on or outside the boundary of the solution's domain are not judged: the channel is 0 < eta < 1, the wall
+    \* of the wall-bounded solution is y = 0 (the library divides by the wall distance and takes its logarithm; limits
+    \* that exist mathematically are 0/0 or inf - inf in floating point, and the repository's tests evaluate there)
+    [] sol = "rans_sa" -> IF NLt(N0, NFromStr(a[1])) /\ NLt(NFromStr(a[1]), N1) THEN RansSA(par, fn, JVar(1, NFromStr(a[1]))) ELSE Undefined
     [] sol = "fans_sa_transient_free_shear" -> FreeShear(par, fn, a, variant)
-    [] sol = "fans_sa_steady_wall_bounded" -> WallBounded(par, fn, a)
+    [] sol = "fans_sa_steady_wall_bounded" ->
+         IF \A i \in 1..Len(a) : NLt(N0, NFromStr(a[i])) THEN WallBounded(par, fn, a) ELSE Undefined
     [] sol = "euler_chem_1d" -> Chem(par, fn, a, cb)
     [] sol = "sod_1d" -> IF sig = "SS" THEN Sod(par, fn, a) ELSE Undefined
     [] sol = "cp_normal" -> IF Len(vec["vec_data"]) = 0 THEN Undefined ELSE CpNormal(par, vec, fn, IF Len(a) > 0 THEN a ELSE <<"0">>, di)
